@@ -1,3 +1,4 @@
 pub mod values;
 pub mod dag;
 pub mod programs;
+pub mod terms;
